@@ -563,6 +563,14 @@ class Evaluator:
         return ("cmp", name, self.snapshot(a), self.snapshot(b))
 
     def contains(self, container, x):
+        if container[0] == "mcoll" and self.heap_colls[container[1]].kind == "dict":
+            table = self.term_table(self.heap_colls[container[1]])
+            if table is not None:
+                k = self.snapshot(x)
+                if any(kk == k for kk, _v in table):
+                    return TRUE
+                if all(kk[0] == "const" for kk, _v in table) and k[0] == "const":
+                    return FALSE
         c = self.snapshot(container)
         if c[0] == "coll" and not c[2]:
             return FALSE
@@ -684,6 +692,14 @@ class Evaluator:
             hit = self.lookup_by_binder(self.heap_colls[v[1]], i)
             if hit is not None:
                 return hit
+            table = self.term_table(self.heap_colls[v[1]])
+            if table:
+                k = self.snapshot(i)
+                for kk, val in reversed(table):
+                    if kk == k:
+                        return val  # syntactically the same key
+                    if not (kk[0] == "const" and k[0] == "const"):
+                        break  # may or may not be the same key
             items = self.heap_colls[v[1]].items
             if items and all(it[0] == "elem" and it[1][0] == "pair" and it[1][1][0] == "const" for it in items):
                 table = {it[1][1][1]: it[1][2] for it in items}
@@ -1218,6 +1234,21 @@ class Evaluator:
             if all(b in ctx for b in it[2]):
                 found = it[1][2]  # the last store wins
         return found
+
+    def term_table(self, m: MColl):
+        """[(key term, value)] of a dict filled by plain stores outside loops / conditions, else None."""
+        if m.kind != "dict":
+            return None
+        known = self.known_conds()
+        out = []
+        for it in m.items:
+            if it[0] == "elem" and it[1][0] == "pair":
+                out.append((self.snapshot(it[1][1]), it[1][2]))
+            elif it[0] == "gen" and it[1][0] == "pair" and all(b[0] == "if" and b[1] in known for b in it[2]):
+                out.append((self.snapshot(it[1][1]), it[1][2]))  # stored under conditions that hold on the current path
+            else:
+                return None
+        return out
 
     def const_table(self, m: MColl):
         """{constant key: value} of a dict that was only filled with constant keys outside loops, else None."""
